@@ -26,7 +26,7 @@ def main(ident, run_tests=True):
         res['demo_out'] = out[-600:]
         if run_tests:
             for attempt in range(3):   # fixed-port server tests can collide with other suites running on this machine
-                rc, out = sh('/venv/bin/python -m pytest -q -p no:cacheprovider --timeout=900', cwd=wt)
+                rc, out = sh("unshare -n sh -c 'ip link set lo up 2>/dev/null; /venv/bin/python -m pytest -q -p no:cacheprovider --timeout=900'", cwd=wt)   # private network namespace: the suite's server tests use the fixed port 8081
                 res['tests_with'] = out.strip().split('\n')[-1]
                 if 'failed' not in res['tests_with']:
                     break
